@@ -254,6 +254,32 @@ func NBitsWhen(target *big.Int, width int, forged func(v *big.Int, n int) []*big
 	}
 }
 
+// NBitsNth forges only the nth (0-based) call matching (target, width); other matching calls are answered
+// honestly. A circuit may decompose the same value more than once: the prover chooses each answer separately.
+func NBitsNth(target *big.Int, width, nth int, forged func(v *big.Int, n int) []*big.Int, fired *int) hint.Function {
+	var mu sync.Mutex
+	seen := 0
+	return func(q *big.Int, in []*big.Int, out []*big.Int) error {
+		if in[0].Cmp(target) == 0 && len(out) == width {
+			mu.Lock()
+			k := seen
+			seen++
+			mu.Unlock()
+			if k == nth {
+				f := forged(in[0], len(out))
+				for i := range out {
+					out[i].Set(f[i])
+				}
+				mu.Lock()
+				*fired++
+				mu.Unlock()
+				return nil
+			}
+		}
+		return bits.NBits(q, in, out)
+	}
+}
+
 // BitsOf returns the n low bits of v (as 0/1 big.Ints).
 func BitsOf(v *big.Int, n int) []*big.Int {
 	out := make([]*big.Int, n)
